@@ -284,6 +284,24 @@ def oracle(case, R):
                 if R.check(ns == [lnames[k] for k in idx], "subset_names", f"{ns} want {want}"):
                     for kk, k in enumerate(idx):
                         same_values(ms[kk], refs[k], "subset")
+                # the same request as a tuple / through the dictionary interface
+                dsub = op4.load(path, namelist=tuple(want) if sub % 2 else want)
+                R.check(list(dsub.keys()) == [n for n in dict.fromkeys(lnames) if n in want], "subset_names_dct",
+                        f"{list(dsub.keys())} want {want}")
+        # a single name as a plain string ("string with name of the single variable to read in"): both interfaces
+        for nm in list(dict.fromkeys(lnames))[:3]:
+            idx = [k for k, n in enumerate(lnames) if n == nm]
+            ns, ms, fs, ts = op4.load(path, namelist=nm, into="list")
+            if R.check(ns == [nm] * len(idx), "single_name_list", f"namelist={nm!r}: {ns} (file holds {lnames})"):
+                for kk, k in enumerate(idx):
+                    same_values(ms[kk], refs[k], "single_name")
+            d1 = op4.load(path, namelist=nm)
+            if R.check(list(d1.keys()) == [nm], "single_name_dct", f"namelist={nm!r}: {list(d1.keys())} (file holds {lnames})"):
+                same_values(d1[nm][0], refs[idx[-1]], "single_name_dct")
+            d2 = op4.read(path, namelist=nm)
+            R.check(list(d2.keys()) == [nm], "single_name_read", f"namelist={nm!r}: {list(d2.keys())}")
+        if any(a != b and a in b for a in lnames for b in lnames):
+            R.label("names:nested")
     try:
         os.remove(path)
     except OSError:
@@ -342,6 +360,10 @@ def matrix_spec(draw, names_pool):
 @st.composite
 def files(draw):
     pool = draw(st.lists(names_st, min_size=1, max_size=4))
+    if draw(st.integers(0, 3)) == 0:
+        # names that contain one another (kbb / k / bb ...): a name request is by equality, never by containment
+        pool = draw(st.lists(st.sampled_from(["kbb", "k", "bb", "b", "kb", "mkbb1", "kbb1"]), min_size=2, max_size=4,
+                             unique=True))
     mats = draw(st.lists(matrix_spec(pool), min_size=1, max_size=5))
     return {"mats": mats,
             "binary": draw(st.booleans()),
